@@ -27,4 +27,4 @@ try:
         print('check  : %s exit=%d :: %s' % (p, r.returncode, ' | '.join(l[:230] for l in lines)))
 finally:
     subprocess.run(['git', '-C', '/repo', 'worktree', 'remove', '--force', wt])
-    subprocess.run(['git', '-C', '/verif', 'checkout', '--', 'lean/TTV/Generated'], capture_output=True)
+    subprocess.run(['/venv/bin/python', '/verif/tools/regen_tables.py'], capture_output=True)
